@@ -146,6 +146,15 @@ def lean_side(pid, reg, args):
     hits = E.grep_forbidden()
     if hits:
         res["broken"].append("forbidden construct in Lean sources: " + "; ".join(hits[:5]))
+    if getattr(args, "tier", "quick") == "thorough":
+        # independent re-check of the compiled proofs (Lean's stand-alone kernel re-checker)
+        mods_ok = sorted(set(m for m, _ in theorems))
+        if mods_ok:
+            rc, out, err = E.sh(["lake", "env", "leanchecker"] + mods_ok, cwd=E.LEAN, timeout=3600)
+            if rc != 0:
+                res["broken"].append("leanchecker rejects the compiled modules: " + (out + err)[-400:])
+            else:
+                res["notes"].append(f"leanchecker: {len(mods_ok)} module(s) re-checked")
     ax, txt = E.audit_axioms(theorems) if theorems else ({}, "")
     res["axioms"] = ax
     for t, a in ax.items():
